@@ -611,8 +611,6 @@ def correspondence(ctx):
         tag = f'{spec.name}-{backend}-{"f32" if f32 else "f64"}-b{len(shp)}'
         ctx.count(tag)
         tol = TOL32 if f32 else TOL64
-        if f32_underflow(spec, f32, th):
-            ctx.count('skipped-f32-underflow'); continue     # reported by the probe under trace1psd-cholesky:float32-underflow
         if isinstance(y, str) or line == 'bad-op':
             ctx.disagree(op[:1500], line[:300], y if isinstance(y, str) else 'array')
             continue
@@ -1066,11 +1064,70 @@ def abk_probe(ctx, rng):
             ctx.probe_ok()
 
 
+def probe_weighted(ctx, rng):
+    """class-level option DiscreteProbability(weight=…): the output lies on the weighted simplex (sum_i w_i p_i = 1, p >= 0) for float and integer
+    weights given as numpy arrays or torch tensors; forward() is tied to the model's weightedProb"""
+    import torch
+    Mm = M()
+    ops, expect, tols = [], [], []
+    for d in (2, 3, 4, 5):
+        weights = {
+            'float64': np.linspace(0.5, 2.5, d), 'float32': np.linspace(0.5, 2.5, d).astype(np.float32),
+            'int64': np.arange(1, d + 1, dtype=np.int64), 'int32': (np.arange(d, dtype=np.int32) % 3 + 1), 'int-all-2': np.full(d, 2, dtype=np.int64),
+            'torch-float64': torch.linspace(0.5, 2.5, d, dtype=torch.float64), 'torch-float32': torch.linspace(0.5, 2.5, d, dtype=torch.float32),
+            'torch-int64': torch.arange(1, d + 1, dtype=torch.int64), 'torch-int32': torch.arange(1, d + 1, dtype=torch.int32),
+        }
+        for wname, w in weights.items():
+            for meth in ('softmax', 'sphere'):
+                for bs in (None, 3):
+                    for dt in (torch.float64, torch.float32):
+                        desc = f'DiscreteProbability({d},{meth},weight={wname},batch_size={bs},{dt})'
+                        torch.manual_seed(int(rng.integers(1 << 30)))
+                        m = guarded(lambda: Mm.DiscreteProbability(d, bs, meth, weight=w, dtype=dt))
+                        if isinstance(m, str):
+                            ctx.fail('weighted-probability:constructor', f'{desc} raised {m}', dict(module=desc)); continue
+                        with torch.no_grad():
+                            if rng.random() < 0.5:   # also away from the constructor's U(-0.5,0.5)
+                                m.theta.data = torch.tensor(rng.normal(size=tuple(m.theta.shape)) * 10 ** rng.uniform(-2, 1.5), dtype=dt)
+                            out = guarded(lambda: to_np(m()))
+                        if isinstance(out, str):
+                            ctx.fail('weighted-probability:forward-raises', f'{desc}: {out}', dict(module=desc)); continue
+                        wn = to_np(w).astype(np.float64)
+                        th = to_np(m.theta).astype(np.float64).reshape(-1, d)
+                        o = out.astype(np.float64).reshape(-1, d)
+                        w32 = 'float32' in wname      # the reciprocal of a float32 weight is formed in float32
+                        tol = PROBE64 if (dt == torch.float64 and not w32) else PROBE32
+                        rp = dict(module=desc, weight=wn.tolist(), theta=th.reshape(-1).tolist())
+                        tint = wname.startswith('torch-int') and dt == torch.float64
+                        if tint and np.all(np.isfinite(o)) and o.min() >= 0 and tol < np.abs(o @ wn - 1).max() <= PROBE32:
+                            # 1/weight of an integer torch tensor is formed in float32 (torch's default dtype) although the module is float64
+                            ctx.fail('weighted-probability:torch-int-weight-float32-reciprocal', f'{desc}: sum_i w_i p_i = {(o @ wn)[0]!r}: only float32-accurate in a float64 module', rp)
+                        elif not np.all(np.isfinite(o)) or o.min() < 0 or np.abs(o @ wn - 1).max() > tol:
+                            ctx.fail('weighted-probability:sum_w_p=1', f'{desc}: p = {o[0]}, sum_i w_i p_i = {(o @ wn)[0]!r} (required 1, p >= 0)', rp)
+                        else:
+                            ctx.probe_ok(('wprob', desc))
+                        for s in range(th.shape[0]):
+                            ops.append(f'C01 wprob {"softmax" if meth == "softmax" else "psphere"} {tbits(wn)} {tbits(th[s])}')
+                            expect.append(o[s]); tols.append(TOL64 if (dt == torch.float64 and not w32 and not wname.startswith('torch-int')) else TOL32)
+    out = common.run_model(ops)
+    for op, e, t, line in zip(ops, expect, tols, out):
+        ctx.count('weighted-probability')
+        if line == 'bad-op':
+            ctx.disagree(op[:600], line, 'array'); continue
+        mvals = parse_out(line)
+        err = rel_err(e, mvals) if mvals.shape == e.shape else float('inf')
+        if not (err <= t):
+            ctx.disagree(op[:600], line[:200], f'{e} (rel. diff {err:.3e})')
+        else:
+            ctx.agree(op, ('wprob', op))
+
+
 def probe(ctx):
     rng = np.random.default_rng(ctx.np_seed + 17)
     probe_constraints(ctx, rng)
     probe_modules(ctx, rng)
     probe_compose(ctx, rng)
+    probe_weighted(ctx, rng)
     abk_probe(ctx, rng)
     ctx.extra['statements_not_proved'] = []
     ctx.extra['probe_tolerance'] = f'constraints: {PROBE64} (float64), {PROBE32} (float32); exp/cayley unitarity scaled by max(1,|theta|_max*dim/10)*order'
